@@ -64,6 +64,28 @@ impl Arch {
         both!(self, pm => pm.add_tile(id, data))
     }
 
+    /// An add whose content is EMPTY, handed over in one of the shapes `impl Into<Vec<u8>>` admits (buffers with and
+    /// without capacity, strings, slices, arrays).
+    pub fn add_empty(&mut self, id: u64, variant: u64) -> std::io::Result<()> {
+        match variant % 8 {
+            0 => both!(self, pm => pm.add_tile(id, Vec::new())),
+            1 => both!(self, pm => pm.add_tile(id, Vec::with_capacity(64))),
+            2 => {
+                let mut v = vec![1u8, 2, 3];
+                v.clear();
+                both!(self, pm => pm.add_tile(id, v))
+            }
+            3 => both!(self, pm => pm.add_tile(id, String::new())),
+            4 => both!(self, pm => pm.add_tile(id, "")),
+            5 => both!(self, pm => pm.add_tile(id, String::with_capacity(10))),
+            6 => {
+                let e: &[u8] = &[];
+                both!(self, pm => pm.add_tile(id, e))
+            }
+            _ => both!(self, pm => pm.add_tile(id, [0u8; 0])),
+        }
+    }
+
     pub fn remove(&mut self, id: u64) {
         both!(self, pm => pm.remove_tile(id));
     }
@@ -108,6 +130,29 @@ impl Arch {
 
     pub fn apply_settings(&mut self, l: &crate::gen::Logical) {
         both!(self, pm => l.apply_settings(pm));
+    }
+
+    /// Serialise at position 0 of a stream that already holds `stale` bytes of an older, longer file (a re-used buffer or
+    /// a file opened without truncation); returns the bytes up to the writer's final position.
+    pub fn save_over(self, stale: usize) -> std::io::Result<Vec<u8>> {
+        match self {
+            Arch::S(pm) => {
+                let mut out = Cursor::new(vec![0x77u8; stale]);
+                pm.to_writer(&mut out)?;
+                let end = out.position() as usize;
+                let mut v = out.into_inner();
+                v.truncate(end);
+                Ok(v)
+            }
+            Arch::A(pm) => {
+                let mut out = futures::io::Cursor::new(vec![0x77u8; stale]);
+                block_on(pm.to_async_writer(&mut out))?;
+                let end = out.position() as usize;
+                let mut v = out.into_inner();
+                v.truncate(end);
+                Ok(v)
+            }
+        }
     }
 
     /// Serialise (consumes the archive) with whatever writer its reader type supports.
